@@ -10,6 +10,7 @@
 #include <cstring>
 #include <functional>
 #include <map>
+#include <sys/resource.h>
 #include <sys/wait.h>
 #include <unistd.h>
 
@@ -51,6 +52,11 @@ namespace hs
                 std::signal(SIGABRT, SIG_DFL);
                 std::signal(SIGSEGV, SIG_DFL);
                 std::signal(SIGBUS, SIG_DFL);
+                std::signal(SIGXCPU, SIG_DFL);
+                // "never returns" is judged by the processor time the child uses, not by the wall clock: a loaded
+                // machine cannot turn a slow child into a hanging one
+                struct rlimit cpu = {2, 4};
+                setrlimit(RLIMIT_CPU, &cpu);
                 if (!std::getenv("VERIF_TRACE"))
                 {
                     if (!freopen("/dev/null", "w", stderr))
@@ -66,7 +72,7 @@ namespace hs
             if (pid < 0)
                 return O_OTHER;
             int status = 0;
-            for (int i = 0; i < 400; ++i) // up to 2 s
+            for (int i = 0; i < 12000; ++i) // (a child that sleeps for ever: 60 s of wall clock)
             {
                 pid_t r = waitpid(pid, &status, WNOHANG);
                 if (r == pid)
@@ -87,6 +93,8 @@ namespace hs
                             return O_OTHER;
                         }
                     }
+                    if (WIFSIGNALED(status) && (WTERMSIG(status) == SIGXCPU || WTERMSIG(status) == SIGKILL))
+                        return O_HANG; // 2 s of processor time used up
                     if (WIFSIGNALED(status))
                         return WTERMSIG(status) == SIGABRT ? O_STOPPED : O_SEGV;
                     return O_OTHER;
@@ -156,7 +164,7 @@ namespace hs
                     what);
         case O_HANG:
             violate("C16", "misuse_hangs", "%s: the call neither returned nor reported nor stopped the program "
-                                           "within 2 s",
+                                           "within 2 s of processor time",
                     what);
         default:
             violate("C16", "misuse_other", "%s: unexpected end of the child process", what);
